@@ -93,7 +93,7 @@ func sparseJSON(doc []byte) []byte {
 var c15Kinds = []string{
 	"id-unknown", "id-retired", "id-other-pending", "type-changed", "payload-flip", "payload-append", "payload-empty", "event-empty",
 	"request-itself", "to-changed", "createdat-changed", "extradata-changed", "round-changed", "event-other", "resultmsgs-dropped", "resultmsg-data-changed",
-	"resultmsgs-many",
+	"resultmsgs-many", "id-case",
 }
 
 func c15Gen(rt *rapid.T) c15Plan {
@@ -260,6 +260,12 @@ func c15Run(t *testing.T, st *vstat.Stats, p c15Plan) (v *viol) {
 			switch mu.Kind {
 			case "id-unknown":
 				sub.ID = fmt.Sprintf("%032x", mu.A)
+			case "id-case":
+				// the identifier respelled (hex digits in upper case): another identifier
+				sub.ID = strings.ToUpper(sub.ID)
+				if sub.ID == genuine.ID {
+					continue
+				}
 			case "id-retired":
 				if len(retired) == 0 {
 					continue
